@@ -23,6 +23,7 @@ import (
 	"golang.org/x/crypto/pbkdf2"
 	"golang.org/x/crypto/sha3"
 
+	"verif/engine/explore"
 	"verif/engine/report"
 	"verif/engine/world"
 )
@@ -151,6 +152,11 @@ func C17(t Tier) int {
 	evals += ksInputs
 	reached += ksReached
 
+	// ---- (4) end-of-block processing after whatever state crafted transactions left behind ----
+	ebSeqs := c17EndBlock(t, add, &samples)
+	evals += ebSeqs
+	reached += ebSeqs
+
 	// report only minimal failing shape sets: a failing input is dropped when a failing input of the same
 	// API/type with a strict subset of its non-default shapes exists (that one is the root cause)
 	sort.SliceStable(vs, func(i, j int) bool { return vs[i].odd < vs[j].odd })
@@ -185,12 +191,13 @@ func C17(t Tier) int {
 	}
 	run.Coverage["evaluations"] = evals
 	run.Coverage["distinct_nontrivial"] = reached
-	run.Coverage["rule"] = fmt.Sprintf("(1) every custom message type x every combination of at most %d non-default field shapes (absent sub-message, empty, 255/256/5001/65536-byte strings, malformed/upper-case/oversize addresses, NUL, invalid UTF-8): serialise+decode, ValidateBasic, GetSigners, GetSignBytes under recover, then DeliverTx in three base states (ABCI code 111222 = recovered panic); (2) every custom query type x request-shape product through BaseApp.Query and directly on the keeper under recover, in four states incl. an odd-length-owner genesis; (3) key-store files: product over version/cipher/kdf/prf/mac/iv/ciphertext/salt/c/dklen x password with the MAC made valid wherever the shape allows, loaded with the real package. non-trivial = inputs that passed stateless validation and reached the handlers + key files that reached decryption", maxOdd)
+	run.Coverage["rule"] = fmt.Sprintf("(1) every custom message type x every combination of at most %d non-default field shapes (absent sub-message, empty, 255/256/5001/65536-byte strings, malformed/upper-case/oversize addresses, NUL, invalid UTF-8): serialise+decode, ValidateBasic, GetSigners, GetSignBytes under recover, then DeliverTx in three base states (ABCI code 111222 = recovered panic); (2) every custom query type x request-shape product through BaseApp.Query and directly on the keeper under recover, in four states incl. an odd-length-owner genesis; (3) key-store files: product over version/cipher/kdf/prf/mac/iv/ciphertext/salt/c/dklen x password with the MAC made valid wherever the shape allows, loaded with the real package; (4) every sequence of at most 2 (thorough: 3) state-crafting transactions of C07's deposit alphabet (sends in several denominations incl. 2^120 and a send-disabled one, multi-send, four kinds of vesting account at the burn address, a transfer to the burn module account, community-pool funding, proposal, vote, custom-module traffic) delivered on a fork of the real deliver state, followed by the real EndBlock under recover. non-trivial = inputs that passed stateless validation and reached the handlers + key files that reached decryption", maxOdd)
 	run.Coverage["samples"] = samples
 	run.Coverage["exhaustive"] = true
 	run.Coverage["message_inputs"] = msgInputs
 	run.Coverage["message_deliveries"] = msgDelivered
 	run.Coverage["query_inputs"] = qInputs
+	run.Coverage["endblock_sequences"] = ebSeqs
 	run.Coverage["keystore_inputs"] = ksInputs
 	run.Coverage["keystore_reached_decryption"] = ksReached
 	run.Assumptions = []string{"EndBlock totality is exercised in every state of the C07 graph", "query requests are built as Go values and marshalled; unknown-field / wire-level garbage is the codec's business"}
@@ -519,4 +526,57 @@ func c17KeyStore(t Tier, add func(kind, sig string, odd int, format string, a ..
 	}
 	*samples = append(*samples, map[string]any{"keystore_file": "version=3 cipher=aes-128-ctr kdf=pbkdf2 dklen=33 iv=17 bytes, MAC valid for password"})
 	return n, reached
+}
+
+// c17EndBlock: end-of-block totality. Every sequence of state-crafting transactions (C07's deposit alphabet) up to the
+// length bound is delivered on a fork of the deliver state and the real EndBlock runs under recover.
+func c17EndBlock(t Tier, add func(kind, sig string, odd int, format string, a ...any), samples *[]any) int {
+	sys := c07System()
+	w, _ := sys.Fresh()
+	var ops []explore.Op
+	for _, o := range sys.Ops {
+		if o.Ctl == "" {
+			ops = append(ops, o)
+		}
+	}
+	maxLen := 2
+	if t.Thorough {
+		maxLen = 3
+	}
+	n := 0
+	var rec func(seq []int)
+	rec = func(seq []int) {
+		if len(seq) > 0 {
+			n++
+			var names []string
+			discard := w.Fork()
+			delivered := ""
+			for _, i := range seq {
+				names = append(names, strings.ReplaceAll(ops[i].Name, ",", ";"))
+				spec := ops[i].Tx(w, nil)
+				if spec == nil {
+					continue
+				}
+				if p := guard(func() { w.Send(*spec) }); p != "" && delivered == "" {
+					delivered = p
+				}
+			}
+			p := guard(func() { w.EndBlock() })
+			discard()
+			if p != "" {
+				add("panic", "panic:EndBlock:after:"+strings.Join(names, ","), len(seq), "EndBlock panicked after the transactions %v: %s", names, firstLineOf(p))
+			}
+			if len(*samples) < 12 && n%97 == 0 {
+				*samples = append(*samples, map[string]any{"end_of_block_after": names, "panicked": p != ""})
+			}
+		}
+		if len(seq) == maxLen {
+			return
+		}
+		for i := range ops {
+			rec(append(append([]int{}, seq...), i))
+		}
+	}
+	rec(nil)
+	return n
 }
